@@ -106,18 +106,26 @@ func (runInfo *runInfoStruct) invokeLetMemberExpr(expr *ast.MemberExpr) {
 			runInfo.rv = nilValue
 			return
 		}
+		// the member name is the key: it has to be a key of this map's type
+		var key reflect.Value
+		key, runInfo.err = convertReflectValueToType(reflect.ValueOf(expr.Name), runInfo.rv.Type().Key())
+		if runInfo.err != nil {
+			runInfo.err = newStringError(expr, "type string cannot be used as key of type "+runInfo.rv.Type().Key().String()+" for map")
+			runInfo.rv = nilValue
+			return
+		}
 		if runInfo.rv.IsNil() {
 			// make new map
 			item := reflect.MakeMap(runInfo.rv.Type())
-			item.SetMapIndex(reflect.ValueOf(expr.Name), value)
+			item.SetMapIndex(key, value)
 			// assign new map
 			runInfo.rv = item
 			runInfo.expr = expr.Expr
 			runInfo.invokeLetExpr()
-			runInfo.rv = item.MapIndex(reflect.ValueOf(expr.Name))
+			runInfo.rv = item.MapIndex(key)
 			return
 		}
-		runInfo.rv.SetMapIndex(reflect.ValueOf(expr.Name), value)
+		runInfo.rv.SetMapIndex(key, value)
 
 	default:
 		runInfo.err = newStringError(expr, "type "+runInfo.rv.Kind().String()+" does not support member operation")
